@@ -62,7 +62,27 @@ code computes), every other target becomes unusable.  Mutation of tracked values
 modelled (tracked values are ints, enum members, records of them).  So the arity of a generated function changes
 whenever a translated statement becomes opaque or vice versa, and the tie file stops compiling.
 Classes deriving from csr.Register (other than Register itself) and component classes without an own __init__ are
-not translated: their port declaration is the inherited one."""
+not translated: their port declaration is the inherited one.
+
+Further rules:
+  * a one-armed `if c: x = f(x)` over one variable is emitted as `((if c then (fun x => f x) else (fun x => x)) x)`:
+    the same value as `if c then f x else x`, with the old value occurring once (zeta-expansion stays linear).
+  * every default value of a tracked __init__ parameter is emitted as `gen_<C>_default_<param>` (the generated
+    functions take all arguments explicitly; Gen/TieSig.v pins the defaults).
+  * MemoryData(depth=d, ..) / Memory(data) of amaranth.lib.memory (EXT_OBJECTS) are opaque steps whose result has the
+    one attribute `depth`.
+  * fail closed at class level: a decorator other than @property / @x.setter on a translated method, a class-level
+    rebinding of a method name, a class-level annotation, or any other class-level statement in an enumeration /
+    signature / interface class aborts; of two definitions of one name the later one is translated.
+  * parameter types are inferred from use: isinstance(p, int) / `p is None` / `p in (ints)` -> pyint;
+    isinstance(p, ShapeLike) / Shape.cast(p) -> shapelike; EnumClass(p) -> earg; `EnumClass(x) for x in p` -> iterable of
+    earg; isinstance(p, LibraryClass) -> object of that class; dict(p) -> dict of members; p handed to another
+    constructor / method of the same class -> that parameter's type; also through `q = p` / `q = flipped(p)`.
+    A parameter with no such use is dropped (path, src_loc_at, name, init, ...): using it aborts (strict) or
+    makes the statement opaque (lenient).
+What is NOT seen: parameter names / keyword-only-ness (a renamed parameter changes nothing generated unless a library
+caller uses it), Amaranth's own refusal of In(negative int), initial values of members (none are declared), the
+elaborate() methods, __repr__."""
 import ast, os
 
 from .translate import Untranslatable, BINOPS, attr_path
